@@ -292,7 +292,7 @@ Definition id_separatingb (H P : C06_Model.graph) : bool :=
 (** the matching stage of one ordinary case: [strat] as the reactor receives it; the raw matches computed with the verified
     enumerator through C06's call interface (as a set; only when [chk_raw]), the hypotheses of C04_in_results_engine_partial
     that are booleans, and the pruning of the implementation's raw list (in its order) with C11's model on the canonical codes *)
-Definition run_matching (core invert : bool) (G H : hostg) (strat : sarg) (chk_raw : bool)
+Definition run_matching_opts (core invert : bool) (G H : hostg) (strat : sarg) (thr : option N) (pref : bool) (chk_raw : bool)
     (raw_impl : option (list C03_Model.mapping)) : tok :=
   match rule_of core invert G H with
   | None => L [I (-1)]
@@ -302,7 +302,7 @@ Definition run_matching (core invert : bool) (G H : hostg) (strat : sarg) (chk_r
       L [tbool (forallb (fun p : N * mnode => 0 <=? m_hc (snd p)) (gnodes (pattern_of l)));
          L [tnat (length (comps host)); tnat (length (comps pat)); tbool (id_separatingb host pat)];
          (if chk_raw then
-            match api_engine (monos_on host pat) strat None false host pat with
+            match api_engine (monos_on host pat) strat thr pref host pat with
             | Result r => L [tset tmapping r]
             | ValueError => L [I 1]
             | NotImplemented => L [I 2]
@@ -310,6 +310,13 @@ Definition run_matching (core invert : bool) (G H : hostg) (strat : sarg) (chk_r
           else L []);
          topt (fun raw => tlist tmap (C11_Model.prune (fun m : C03_Model.mapping => m) (rule_graph rc) raw)) raw_impl]
   end.
+Definition run_matching (core invert : bool) (G H : hostg) (strat : sarg) (chk_raw : bool)
+    (raw_impl : option (list C03_Model.mapping)) : tok := run_matching_opts core invert G H strat None false chk_raw raw_impl.
+(** the reactor's own template in the THIRD hydrogen mode the options allow (explicit_h = False without implicit_temp: the rule is
+    prepared as in the default mode, _explicit_h is not run) *)
+Definition run_object_S (core invert : bool) (G H : hostg)
+    (raw : list C03_Model.mapping) (tbl : list (option bytes * option bytes)) (script : list attr) : tok :=
+  run_object (RO invert false false (SMember 0%N) None false) None (substrate invert G H) (template core false G H) raw tbl script.
 Definition run_c04m (core invert guard : bool) (G H : hostg) (remaps : option (list N * list C03_Model.mapping))
     (kept : list C03_Model.mapping) (strat : sarg) (chk_raw : bool) (raw_impl : option (list C03_Model.mapping)) : tok :=
   L [run_c04k core invert guard G H remaps kept; run_matching core invert G H strat chk_raw raw_impl].
